@@ -1138,7 +1138,9 @@ def parse_beep(toks):
 
 @parse_action(bload_stmt)
 def parse_bload_stmt(toks):
-    filespec, offset = toks
+    # the offset is optional
+    filespec, *rest = toks
+    offset = rest[0] if rest else NumericLiteral(0)
     return BloadStmt(filespec, offset)
 
 
